@@ -298,7 +298,9 @@ var xgTable = []xgList{
 			}
 		}},
 	{ns: "embedded.spork", method: "getAll", contract: types.SporkContract,
-		truth: func(sto db.DB, _ []interface{}) ([]interface{}, error) { return anyList(definition.GetAllSporks(sto)), nil }},
+		truth: func(sto db.DB, _ []interface{}) ([]interface{}, error) {
+			return anyList(definition.GetAllSporks(sto)), nil
+		}},
 	{ns: "embedded.liquidity", method: "getLiquidityStakeEntriesByAddress", contract: types.LiquidityContract, args: addrArgs,
 		truth: func(sto db.DB, args []interface{}) ([]interface{}, error) {
 			var out []interface{}
